@@ -29,6 +29,7 @@ def store_cases(draw, long_paths=False):
     # very long paths (tis_set.maxlength may exceed any built-in default length): the frame pattern repeated to just over 100000 / 2^17 frames
     long = draw(st.sampled_from([100_001, 131_073])) if long_paths else None
     return {"long": long, "frames": frames, "nfiles": nfiles, "number": draw(st.integers(0, 500)), "step": draw(st.integers(0, 9999)),
+            "other_fs": draw(st.sampled_from([False, False, False, True])),
             "keep": draw(st.sampled_from([[], [], [".xtc"], [".xtc", ".log"]])), "side": draw(st.lists(st.booleans(), min_size=4, max_size=4)),
             "ext": draw(st.sampled_from(["xyz", "trr", "lammpstrj"])), "energy_attr": draw(st.booleans())}
 
@@ -42,10 +43,20 @@ def body_store(rec, c):
     if c.get("long"):
         c = dict(c, frames=(c["frames"] * (c["long"] // len(c["frames"]) + 1))[: c["long"]])
     d = isolate.mkscratch("st_")
+    wroot = d
+    if c.get("other_fs"):
+        # the worker directories on another file system than the load directory (a scratch disk): moving a file there is
+        # not a rename. Only when this machine has two writable file systems.
+        import tempfile
+
+        for cand in ("/var/tmp", tempfile.gettempdir(), "/tmp"):
+            if os.path.isdir(cand) and os.access(cand, os.W_OK) and os.stat(cand).st_dev != os.stat(d).st_dev:
+                wroot = tempfile.mkdtemp(prefix="verif_st_", dir=cand)
+                break
     try:
         srcs = []
         for k in range(c["nfiles"]):
-            sd = os.path.join(d, f"worker{k}")
+            sd = os.path.join(wroot, f"worker{k}")
             os.makedirs(sd)
             f = os.path.join(sd, f"00{k}_123_{k}_traj{'F' if k % 2 else 'B'}.{c['ext']}")
             with open(f, "w") as fh:
@@ -77,7 +88,7 @@ def body_store(rec, c):
         multi = len(used) >= 2
         rev = any(fr["rev"] for fr in c["frames"])
         rec.case(key=c0, nontrivial=multi or rev, classes=["store", "store:multi-file" if multi else "store:one-file"] + (["store:more-than-100000-frames"] if len(c["frames"]) > 100000 else []) + [ "store:reversed-frames" if rev else "store:forward-only",
-                                                       "store:keep-side-files" if c["keep"] else "store:no-side-files"],
+                                                       "store:keep-side-files" if c["keep"] else "store:no-side-files"] + (["store:worker-directories-on-another-file-system"] if wroot != d else []),
                  sample={"frames": c["frames"][:4], "nframes": len(c["frames"]), "nfiles": c["nfiles"], "number": c["number"], "keep": c["keep"]} if multi and rev and len(rec.samples) < 2 else None)
         try:
             out = store.output(c["step"], {"path": path, "dir": load_dir})
@@ -122,6 +133,8 @@ def body_store(rec, c):
         rec.check(out.path_number == c["number"] and out.weights == path.weights and out.generated == path.generated, "store:returned-copy-attributes")
     finally:
         isolate.rmscratch(d)
+        if wroot != d:
+            isolate.rmscratch(wroot)
 
 
 # ----------------------------------------------------------------- (b) histories
